@@ -29,6 +29,8 @@ def step (line : String) : String :=
   | "tls" :: rest => Driver.Tls.run rest
   | "rec" :: rest => Driver.KeepAlive.run rest
   | "rq" :: rest => Driver.ReqClient.run rest
+  | "rqstallc" :: rest => Driver.ReqClient.runStallC rest
+  | "rqwrap" :: rest => Driver.ReqClient.runWrap rest
   | "rqdead" :: rest => Driver.ReqClient.runDead rest
   | "rqcut" :: rest => Driver.ReqClient.runCut rest
   | "rqreuse" :: rest => Driver.ReqClient.runReuse rest
